@@ -26,7 +26,7 @@ RULE = ("cases = call histories run(a1), ..., run(ak), k = 2..6, on one parser o
         "worker process, workers running under PYTHONHASHSEED 0, 1, 4242, 31337, random...; every run() executes in an empty scratch "
         "cwd under a file-system audit hook. Non-trivial = history with >= 2 different argument sets on a script with >= 2 "
         "entities; distinct = distinct (script, history)."
-        " Added after seeded defects: file_path / dump_path arguments without dump, parse_from_file under the file monitor, empty scripts, cross-script histories (B alters a table only A defines).")
+        " Added after seeded defects: file_path / dump_path arguments without dump, parse_from_file under the file monitor, empty scripts, cross-script histories (B alters a table only A defines), a bystander object with the opposite flags constructed (never run) between the calls.")
 ASSUMPTIONS = ["'another process' = same machine, same interpreter build", "dump=False throughout (C19 owns dumping)"]
 MIN_EVENTS = {"run_return": 500}
 HASHSEEDS = ["0", "1", "4242", "31337", "random", "7", "99999", "random"]
@@ -88,6 +88,13 @@ def run_history(ctx, case):
     returned = []
     for step, args in enumerate(history):
         ctx.evaluated(2)
+        if step % 2 == 1 or len(history) == 1:
+            # a bystander: another parser object with the opposite flags is merely constructed (never run) before this call
+            try:
+                DDLParser('CREATE TABLE "By" ("x" int) garbage (;\n', normalize_names=not ctor.get("normalize_names", False), silent=not ctor.get("silent", True))
+                ctx.obs["bystander_objects_constructed"] += 1
+            except Exception:
+                pass
         before = fs.listing(".")
         with fs.Watch() as w:
             try:
